@@ -148,9 +148,10 @@ def run(ck):
     # ---------------- (a) exact tier --------------------------------------------------------------
     exact_cases = []
     # sq2w: two Wyckoff sets with unequal site data; oblique1: point group 2, the exact Lsv has an antisymmetric part
-    names_exact = ["square", "sq2w", "oblique1", "honeycomb", "rect", "tria"]
+    # rect-polar2d / tria-disp: non-empty site vector basis (origin-state correction, fix b4a4433) - decided exactly as well
+    names_exact = ["square", "rect-polar2d", "sq2w", "oblique1", "honeycomb", "rect", "tria-disp", "tria"]
     if not ck.quick: names_exact += ["sc", "tet"]                   # 3-D: 124 states, 744 edges, 6 correctors
-    for rep in range(ck.n(6, 13)):
+    for rep in range(ck.n(8, 16)):
         nm = names_exact[rep % len(names_exact)]
         crys, chem = gen.named(nm)
         net = network_for(crys, chem, rng)
